@@ -14,6 +14,7 @@ import (
 	"encoding/json"
 	"errors"
 	"fmt"
+	"math/rand"
 	"os"
 	"path/filepath"
 	"runtime"
@@ -96,6 +97,7 @@ type ctl struct {
 	held        *heldSet // goroutines currently blocked at a gate
 	trace       []string
 	perturb     func()
+	freeLog     func(point, stage string, seq uint64, blk int) // free-running mode: event sink
 }
 
 // the hook installed once in main dispatches to the controller of the current run
@@ -148,6 +150,9 @@ func (c *ctl) blockOf(point string, seq uint64, raw []byte) int {
 func (c *ctl) hook(point, stage string, seq uint64, raw []byte, val int64) {
 	a := &arrival{point: point, stage: stage, seq: seq, val: val, blk: c.blockOf(point, seq, raw), gid: gid()}
 	if !c.gated.Load() {
+		if c.freeLog != nil {
+			c.freeLog(point, stage, seq, a.blk)
+		}
 		if c.perturb != nil {
 			c.perturb()
 		}
@@ -900,6 +905,184 @@ func (r *run) steps(cleanup func() string) (out []finding) {
 	return out
 }
 
+// ---------------------------------------------------------------- free-running stress
+
+type sline struct {
+	Ev   string `json:"ev"`
+	B    int    `json:"b"`
+	N    int    `json:"n"`
+	S    string `json:"s"`
+	Good []int  `json:"good,omitempty"`
+	Cfg  string `json:"cfg,omitempty"`
+}
+
+// stressOne runs one free-running execution (all goroutines truly concurrent, seeded
+// perturbation in the hooks) and returns its event trace for PipelineTrace.tla.
+func stressOne(seed int64) []sline {
+	rng := rand.New(rand.NewSource(seed))
+	nb := 8 + rng.Intn(50)
+	d := 1 + rng.Intn(16)
+	capv := []int{1, 2, 8, 64}[rng.Intn(4)]
+	maxPend := []int{1, 4, 2160}[rng.Intn(3)]
+	nsub := 1 + rng.Intn(4)
+	quiet := rng.Intn(10) < 6
+	var mu sync.Mutex
+	var lines []sline
+	logf := func(l sline) { mu.Lock(); lines = append(lines, l); mu.Unlock() }
+	c := newCtl()
+	var pmu sync.Mutex
+	prng := rand.New(rand.NewSource(seed + 99))
+	c.perturb = func() {
+		pmu.Lock()
+		k := prng.Intn(24)
+		pmu.Unlock()
+		switch {
+		case k < 5:
+			runtime.Gosched()
+		case k == 5:
+			time.Sleep(time.Duration(20+k*7) * time.Microsecond)
+		}
+	}
+	c.freeLog = func(point, stage string, seq uint64, blk int) {
+		switch point {
+		case "sub.send":
+			logf(sline{Ev: "SubSeq", B: blk, N: int(seq)})
+		case "w.emit":
+			logf(sline{Ev: "Took", B: blk, S: stage})
+		}
+	}
+	raws := make([][]byte, nb+1)
+	var good []int
+	for b := 1; b <= nb; b++ {
+		if rng.Intn(4) == 0 {
+			raws[b] = []byte{0xff, byte(b), 0x00}
+		} else {
+			raws[b] = bytes.Clone(goodBlock)
+			good = append(good, b)
+		}
+		c.blkByPtr[&raws[b][0]] = b
+	}
+	if good == nil {
+		good = []int{}
+	}
+	logf(sline{Ev: "Reset", Good: good, Cfg: fmt.Sprintf("nb=%d d=%d cap=%d maxpend=%d nsub=%d quiet=%v seed=%d", nb, d, capv, maxPend, nsub, quiet, seed)})
+	curCtl.Store(c)
+	applyLat := time.Duration(rng.Intn(300)) * time.Microsecond
+	applyFn := func(it *pipeline.BlockItem) error {
+		b := c.blockOf("apply.call", it.SequenceNumber(), it.RawCbor())
+		logf(sline{Ev: "ApplyCall", B: b})
+		if applyLat > 0 {
+			time.Sleep(applyLat)
+		}
+		logf(sline{Ev: "ApplyRet", B: b})
+		return nil
+	}
+	p := pipeline.NewBlockPipeline(
+		pipeline.WithDecodeWorkers(d), pipeline.WithPrefetchBufferSize(capv),
+		pipeline.WithMaxPendingBlocks(maxPend), pipeline.WithApplyFunc(applyFn))
+	if err := p.Start(context.Background()); err != nil {
+		return nil
+	}
+	resDone := make(chan struct{})
+	var nres int64
+	go func() {
+		defer close(resDone)
+		for it := range p.Results() {
+			logf(sline{Ev: "Result", B: c.blockOf("result", it.SequenceNumber(), it.RawCbor())})
+			atomic.AddInt64(&nres, 1)
+		}
+	}()
+	go func() {
+		for range p.Errors() {
+		}
+	}()
+	var okCount int64
+	var wg sync.WaitGroup
+	for s := 0; s < nsub; s++ {
+		wg.Add(1)
+		go func(s int) {
+			defer wg.Done()
+			r := rand.New(rand.NewSource(seed*31 + int64(s)))
+			for b := 1 + s; b <= nb; b += nsub {
+				ctx := context.Background()
+				var cancel context.CancelFunc = func() {}
+				if r.Intn(8) == 0 {
+					ctx, cancel = context.WithTimeout(ctx, time.Duration(r.Intn(400))*time.Microsecond)
+				}
+				err := p.Submit(ctx, ledger.BlockTypeConway, raws[b], pcommon.Tip{})
+				cancel()
+				out := errKind(err)
+				if out == "ok" {
+					atomic.AddInt64(&okCount, 1)
+				}
+				logf(sline{Ev: "SubRet", B: b, S: out})
+			}
+		}(s)
+	}
+	// drains at random moments
+	drainStop := make(chan struct{})
+	drainParent, drainCancel := context.WithCancel(context.Background())
+	defer drainCancel()
+	var dwg sync.WaitGroup
+	dwg.Add(1)
+	go func() {
+		defer dwg.Done()
+		r := rand.New(rand.NewSource(seed * 17))
+		for i := 0; i < 3; i++ {
+			select {
+			case <-drainStop:
+				return
+			case <-time.After(time.Duration(r.Intn(3000)) * time.Microsecond):
+			}
+			ctx, cancel := context.WithTimeout(drainParent, 5*time.Second)
+			logf(sline{Ev: "DrainBegin"})
+			err := p.WaitForDrain(ctx)
+			cancel()
+			logf(sline{Ev: "DrainRet", S: errKind(err)})
+		}
+	}()
+	if quiet {
+		wg.Wait()
+		deadline := time.Now().Add(15 * time.Second)
+		for time.Now().Before(deadline) && atomic.LoadInt64(&nres) < atomic.LoadInt64(&okCount) {
+			time.Sleep(time.Millisecond)
+		}
+	} else {
+		time.Sleep(time.Duration(rng.Intn(4000)) * time.Microsecond)
+	}
+	close(drainStop)
+	if quiet {
+		dwg.Wait()
+	}
+	logf(sline{Ev: "StopCall"})
+	stopped := make(chan struct{})
+	go func() { p.Stop(); close(stopped) }()
+	select {
+	case <-stopped:
+		logf(sline{Ev: "StopRet"})
+	case <-time.After(20 * time.Second):
+	}
+	drainCancel() // a WaitForDrain that outlives Stop would wait for dropped items
+	wg.Wait()
+	dwg.Wait()
+	select {
+	case <-resDone:
+	case <-time.After(5 * time.Second):
+	}
+	left := 0
+	if m := leakCheck(); m != "" {
+		left = 1
+	}
+	q := 0
+	if quiet {
+		q = 1
+	}
+	logf(sline{Ev: "End", N: left, B: q})
+	mu.Lock()
+	defer mu.Unlock()
+	return lines
+}
+
 func leakCheck() string {
 	deadline := time.Now().Add(3 * time.Second)
 	for {
@@ -966,6 +1149,34 @@ func main() {
 		}
 		rep.Extra["forced_steps"] = forcedSteps
 		rep.Extra["behaviours"] = len(bhs)
+	case "stress":
+		if len(os.Args) < 4 {
+			rep.Dead("usage: pipe stress <outdir> <n>")
+		}
+		n := 0
+		fmt.Sscanf(os.Args[3], "%d", &n)
+		f, err := os.Create(os.Args[2] + "/traces.ndjson")
+		if err != nil {
+			rep.Dead("%v", err)
+		}
+		enc := json.NewEncoder(f)
+		events := 0
+		for i := 0; i < n; i++ {
+			ls := stressOne(vh.Seed()*1000003 + int64(i))
+			if ls == nil {
+				rep.Dead("pipeline did not start")
+			}
+			for _, l := range ls {
+				enc.Encode(l)
+			}
+			events += len(ls)
+			rep.Case(ls[0].Cfg, len(ls) > 20)
+			if i < 2 {
+				rep.Sample(map[string]any{"cfg": ls[0].Cfg, "events": len(ls)})
+			}
+		}
+		f.Close()
+		rep.Extra["stress_events"] = events
 	default:
 		rep.Dead("unknown mode %s", os.Args[1])
 	}
